@@ -44,6 +44,7 @@ func main() {
 	seed, _ := strconv.ParseInt(os.Args[2], 10, 64)
 	nids, _ := strconv.Atoi(os.Args[3])
 	rng := rand.New(rand.NewSource(seed))
+	nbatches := nids
 	f, _ := os.Create(out)
 	defer f.Close()
 	bw := bufio.NewWriter(f)
@@ -157,6 +158,64 @@ func main() {
 						ev.Dup = 1
 					}
 					enc.Encode(ev)
+				}
+			}
+			// batches of several items spanning partitions: every item is observed where it arrives
+			for round := 0; round < nbatches; round++ {
+				for _, path := range []string{"binsert", "bupdate", "bremove"} {
+					for _, n := range nodes {
+						n.Reset("ok", false)
+					}
+					size := 2 + rng.Intn(7)
+					perm := rng.Perm(len(ids))[:size]
+					var items []*pb.BatchItem
+					for _, k := range perm {
+						items = append(items, &pb.BatchItem{Id: ids[k].Bytes(), Value: []float32{1, 2}})
+					}
+					ctx, cancel := context.WithTimeout(context.Background(), 3*time.Second)
+					var errs map[uuid.UUID]error
+					var err error
+					switch path {
+					case "binsert":
+						errs, err = ds.BatchInsert(ctx, items)
+					case "bupdate":
+						errs, err = ds.BatchUpdate(ctx, items)
+					case "bremove":
+						errs, err = ds.BatchRemove(ctx, items)
+					}
+					cancel()
+					for _, k := range perm {
+						id := ids[k]
+						ev := event{Ev: "route", Entry: ename, Path: "m" + path, Id: k, Np: np, Got: -1, Hex: id.String()}
+						e := err
+						if e == nil {
+							e = errs[id]
+						}
+						if e != nil {
+							ev.Err = e.Error()
+						}
+						hits := 0
+						for i := 0; i < np; i++ {
+							for _, b := range nodes[i].BatchSnapshot() {
+								if b[2] != id.String() {
+									continue
+								}
+								hits++
+								ev.Got = i
+								if b[0] != path || b[1] != pids[i].String() {
+									ev.Got = -2
+								}
+							}
+						}
+						if e != nil && strings.Contains(e.Error(), storage.RaftNotLoadedOnNodeErr.Error()) && ename == "host0" {
+							hits++
+							ev.Got = 0
+						}
+						if hits > 1 {
+							ev.Dup = 1
+						}
+						enc.Encode(ev)
+					}
 				}
 			}
 		}
